@@ -544,7 +544,7 @@ def extras_task(task, ctx: Ctx):
 
 
 def run(tier, R):
-    cap = 4 if tier == "quick" else 6
+    cap = 4 if tier == "quick" else 5  # (length 6 is > 10^8 transitions: did not fit the budget)
     spec = Spec(cap)
     res = R.bfs(spec, depth=64, chunk=0)
     R.run_tasks(extras_task, [("long",), ("reentrant",), ("ties",)], recheck=0.0)
